@@ -1698,6 +1698,99 @@ fn scale_program(rng: &mut Rng) -> String {
     text
 }
 
+/// W14 sibling scopes: several nested groups of *identical shape at equal depth* whose local
+/// definitions differ (`t = int` here, `t = bool` there), so that the same question - same de
+/// Bruijn indices, same structure - has different answers in different scopes; between them,
+/// scopes that make the checker answer dozens of other distinct questions. State that is keyed by
+/// shape and depth but not by what the context holds (a memo of unifications or normal forms, a
+/// bounded cache with seed-dependent eviction) gives launch-dependent verdicts only here (S70).
+fn sibling_scopes_program(rng: &mut Rng) -> String {
+    let tys = ["int", "bool", "type"];
+    let lits = ["1", "true", "int", "2 + 3"];
+    let siblings = rng.range(2, 5);
+    let lit = *rng.pick(&lits);
+    let with_fun = rng.chance(1, 2);
+    let with_alias = rng.chance(1, 3);
+    let mut text = String::new();
+    let mut serial = 0;
+    for i in 0..siblings {
+        let t = if i == 0 { "int" } else { *rng.pick(&tys) };
+        text.push_str(&format!("s{i} = (\n  t = {t}\n"));
+        if with_alias {
+            text.push_str("  u = t\n  v : u = ");
+        } else {
+            text.push_str("  v : t = ");
+        }
+        text.push_str(lit);
+        text.push('\n');
+        if with_fun {
+            text.push_str("  w : (t -> t) = (x : t) => x\n");
+        }
+        text.push_str("  v\n)\n");
+        if i + 1 < siblings {
+            // pressure: n definitions whose annotations are all different
+            let n = *rng.pick(&[0usize, 4, 12, 31, 31, 60, 120]);
+            if n > 0 {
+                let bits = 3 + rng.below(4);
+                text.push_str(&format!("k{i} = (\n  t = int\n"));
+                for j in 1..=n {
+                    serial += 1;
+                    let mut ann = String::new();
+                    let mut def = String::new();
+                    for b in 0..bits {
+                        let pick = (j >> b) & 1;
+                        ann.push_str(if pick == 1 { "t -> " } else if (serial + b) % 3 == 0 { "bool -> " } else { "int -> " });
+                        let dom = if pick == 1 { "int" } else if (serial + b) % 3 == 0 { "bool" } else { "int" };
+                        def.push_str(&format!("(a{b} : {dom}) => "));
+                    }
+                    text.push_str(&format!("  f{serial} : ({ann}int) = {def}{}\n", j % 5));
+                }
+                text.push_str("  0\n)\n");
+            }
+        }
+    }
+    text.push_str(&format!("s{}\n", rng.below(siblings)));
+    text
+}
+
+/// W13b bytes: files whose *length in bytes* sits around typical buffer, chunk and page sizes
+/// (16 KiB ... 256 KiB), cheap for every stage because most of it is comments: a few definitions,
+/// and 0 ... 200 stray symbols or misspelt names spread evenly over the whole length. Anything that
+/// splits the text into pieces, caps the number of diagnostics across pieces, or switches strategy
+/// above a size only does so on files like these (S72).
+fn bytes_program(rng: &mut Rng) -> String {
+    let target = *rng.pick(&[16usize, 32, 64, 64, 64, 128, 128, 256]) * 1024 * rng.range(90, 125) / 100;
+    let strays = *rng.pick(&[0usize, 0, 3, 12, 25, 25, 60, 200]);
+    let defs = rng.range(2, 30);
+    let stray_syms = ["$", "@", "~", "`", "^", "§", "€"];
+    // about 60 bytes per line
+    let lines = target / 60 + 1;
+    let stray_every = if strays > 0 { (lines / strays).max(1) } else { usize::MAX };
+    let def_every = (lines / defs).max(1);
+    let unbound = rng.chance(1, 5);
+    let mut text = String::with_capacity(target + 4096);
+    let mut defined = 0usize;
+    for i in 0..lines {
+        if i % def_every == def_every / 2 && defined < defs {
+            if defined == 0 {
+                text.push_str("d0 = 1\n");
+            } else if unbound && defined % 4 == 3 {
+                text.push_str(&format!("d{defined} = d{} + missing{defined}\n", defined - 1));
+            } else {
+                text.push_str(&format!("d{defined} = d{} + {i}\n", defined - 1));
+            }
+            defined += 1;
+        } else if stray_every != usize::MAX && i % stray_every == stray_every / 3 {
+            let sym = stray_syms[(i / stray_every) % stray_syms.len()];
+            text.push_str(&format!("# line {i:06} has a stray symbol after this comment\n{sym}\n"));
+        } else {
+            text.push_str(&format!("# line {i:06} ---------------------------------------------\n"));
+        }
+    }
+    text.push_str(&format!("d{}\n", defined.saturating_sub(1)));
+    text
+}
+
 fn divergent_program(rng: &mut Rng) -> String {
     let k = rng.range(2, 7);
     let names = ["x", "y", "z", "u", "v", "w", "t"];
@@ -1730,7 +1823,7 @@ pub fn generate(rng: &mut Rng, corpus: &[String]) -> Case {
     }
     let case = generate_base(rng, corpus);
     // one case in four is perturbed (the family label keeps its base)
-    if rng.chance(1, 4) && case.source.len() < 6000 {
+    if rng.chance(1, 4) && case.source.len() < 6000 && case.family != "W13-scale" {
         Case { family: case.family, source: perturb(rng, &case.source) }
     } else {
         case
@@ -1749,7 +1842,8 @@ fn generate_base(rng: &mut Rng, corpus: &[String]) -> Case {
     };
     match family {
         0..=19 => Case { family: "W2-clusters", source: cluster_program(rng) },
-        20..=21 => Case { family: "W13-scale", source: scale_program(rng) },
+        20 => Case { family: "W13-scale", source: scale_program(rng) },
+        21 => Case { family: "W13-scale", source: if rng.chance(1, 2) { bytes_program(rng) } else { scale_program(rng) } },
         22..=33 => {
             let n = rng.range(2, 5);
             Case { family: "W3-multi-fault", source: typed_program(rng, n, false) }
@@ -1772,10 +1866,11 @@ fn generate_base(rng: &mut Rng, corpus: &[String]) -> Case {
             };
             Case { family: "W5-lexical-fault", source: lexical_faults(rng, &base) }
         }
-        58..=68 => {
+        58..=67 => {
             let source = if rng.chance(1, 2) { rich_program(rng) } else { typed_program(rng, 0, true) };
             Case { family: "W6-rich-accepted", source }
         }
+        68 => Case { family: "W14-sibling-scopes", source: sibling_scopes_program(rng) },
         69..=73 => Case { family: "W6-holes", source: holes_program(rng) },
         74..=79 => Case { family: "W8-runtime", source: runtime_program(rng) },
         80..=85 => {
